@@ -355,13 +355,18 @@ fn replay_earlystop_with(case: &Value, rep: &mut Report, embedding: &str, script
 /// all layers preserve 16 elements (1x4x4 <-> 16); a final dense layer produces the 2 outputs.
 pub fn flags_arch(kinds: &[String], drop: &[bool]) -> Value {
     let mut layers = Vec::new();
-    let first_spatial = kinds.first().map(|k| k != "dense" && k != "fbdense").unwrap_or(false);
+    let first_spatial = kinds.first().map(|k| k != "dense" && k != "fbdense" && k != "softmax").unwrap_or(false);
     let mut spatial = first_spatial;
     for (i, k) in kinds.iter().enumerate() {
         let d = if drop.get(i).cloned().unwrap_or(false) { json!(0.5) } else { Value::Null };
         match k.as_str() {
             "dense" => {
                 layers.push(json!({"kind": "dense", "out": 16, "act": "tanh", "bias": true, "dropout": d}));
+                spatial = false;
+            }
+            // a soft-max layer in the middle of the network (a vector-wide activation with its own dropout arm)
+            "softmax" => {
+                layers.push(json!({"kind": "dense", "out": 16, "act": "softmax", "bias": true, "dropout": d}));
                 spatial = false;
             }
             "conv" => {
@@ -735,7 +740,7 @@ fn net_event(run: usize, spec: &RunSpec) -> Value {
 
 fn driver_archs(rng: &mut Rng) -> Vec<Value> {
     let mut archs = architectures();
-    let kinds_menu = ["dense", "conv", "deconv", "pool", "fb"];
+    let kinds_menu = ["dense", "softmax", "conv", "deconv", "pool", "fb"];
     for _ in 0..4 {
         let k = rng.range(1, 4) as usize;
         let kinds: Vec<String> = (0..k).map(|_| rng.pick(&kinds_menu).to_string()).collect();
@@ -1168,7 +1173,7 @@ pub fn record_optslots(seed: u64, tier: &str, trace: &mut Vec<Value>, rep: &mut 
                                {"kind": "conv", "filters": 1, "kernel": [3, 3], "stride": [1, 1], "padding": [1, 1], "act": "tanh"}]},
                    {"kind": "dense", "out": 2, "act": "linear", "bias": true}],
         "objective": {"kind": "mse"}, "optimizer": {"kind": "adam", "lr": 0.01}}));
-    let kinds_menu = ["dense", "conv", "deconv", "pool", "fb"];
+    let kinds_menu = ["dense", "softmax", "conv", "deconv", "pool", "fb"];
     for _ in 0..(if tier == "thorough" { 30 } else { 6 }) {
         let k = rng.range(1, 4) as usize;
         let kinds: Vec<String> = (0..k).map(|_| rng.pick(&kinds_menu).to_string()).collect();
